@@ -115,8 +115,9 @@ type Exec struct {
 	Horizon  int
 	ObsHash  uint64
 	Switches int
-	runLen   int      // consecutive steps of the running thread
-	expect   []Choice // recorded choices of the parent execution for the determinism guard
+	runLen   int       // consecutive steps of the running thread
+	ebuf     []*Thread // scratch for enabledSet
+	expect   []Choice  // recorded choices of the parent execution for the determinism guard
 	// Notes are soft violations recorded without unwinding (e.g. from inside callbacks).
 	Notes []Verdict
 }
@@ -200,7 +201,7 @@ func CurID() int {
 }
 
 func (x *Exec) enabledSet(me *Thread) []*Thread {
-	var e []*Thread
+	e := x.ebuf[:0]
 	if me != nil && !me.done && x.isEnabled(me) {
 		e = append(e, me)
 	}
@@ -209,6 +210,7 @@ func (x *Exec) enabledSet(me *Thread) []*Thread {
 			e = append(e, t)
 		}
 	}
+	x.ebuf = e
 	return e
 }
 
